@@ -302,12 +302,20 @@ def run(res, ctx):
                     x = {"sec": "FOO", "td": d0 + day, "sd": d0 + day, "act": act, "com": None, "cur": None, "rate": None, "af": af}
                     x.update(kw)
                     return x
-                kind = rng.choice(["roc-equal", "roc-over", "roc-zero-held", "sell-exact", "sell-over"])
+                kind = rng.choice(["roc-equal", "roc-over", "roc-zero-held", "sell-exact", "sell-over", "roc-fx-under", "roc-fx-over"])
                 rows = [_q(0, "Buy", sh=core.D(nsh), aps=core.D(px))]
                 if kind == "roc-equal":
                     rows += [_q(10, "RoC", aps=core.D(px)), _q(20, "Sell", sh=core.D(nsh), aps=core.D(px + 1))]
                 elif kind == "roc-over":
                     rows += [_q(10, "RoC", aps=core.D(px * 100 + 1, 2)), _q(20, "Sell", sh=core.D(1), aps=core.D(px))]
+                elif kind == "roc-fx-under":
+                    # foreign currency below par: more than the cost base in USD, less in CAD (valid)
+                    rows += [_q(10, "RoC", aps=core.D(px * 101, 2), cur="USD", rate=core.D(98, 2)),
+                             _q(20, "Sell", sh=core.D(nsh), aps=core.D(px + 1))]
+                elif kind == "roc-fx-over":
+                    # foreign currency above par: less than the cost base in USD, more in CAD (impossible)
+                    rows += [_q(10, "RoC", aps=core.D(px * 80, 2), cur="USD", rate=core.D(135, 2)),
+                             _q(20, "Sell", sh=core.D(1), aps=core.D(px))]
                 elif kind == "roc-zero-held":
                     rows += [_q(10, "Sell", sh=core.D(nsh), aps=core.D(px + 1)), _q(50, "RoC", aps=core.D(1)),
                              _q(60, "Buy", sh=core.D(1), aps=core.D(px))]
